@@ -23,7 +23,7 @@ CHUNK = 20000
 # spec side
 # ---------------------------------------------------------------------------------------
 ACTIONS = ("Assign", "Copy", "Use", "IfThen", "IfElse", "LoopStart", "LoopEnter", "LoopExit", "Break", "Continue",
-           "Return", "EndSeq", "DefFun", "EndFun")
+           "Return", "DeadEdge", "EndSeq", "DefFun", "EndFun")
 
 
 def action_coverage(ctx, progs):
@@ -38,9 +38,15 @@ def action_coverage(ctx, progs):
 
 
 def spec_witnesses(ctx, progs):
-    """progs: list of {"id", "body"} (with line numbers). Returns {id: set((kind, var, line))}
-    and measured numbers. Two TLC runs per chunk: paths -> facts, facts -> kinds."""
+    """progs: list of {"id", "body"} (with line numbers). Returns {id: set((kind, var, line))}, the subset
+    of witnesses the code is required to act on, and measured numbers.
+    Two TLC runs per chunk: paths -> facts, facts -> kinds.
+    Required = witnesses at live reads, and never/maybe witnesses at reads in dead code of main (the
+    analyses follow never-taken edges). Optional (the code may report them or not): type joins / unbound
+    locals in dead code (cfg_checker only type-checks dead blocks hanging off the entry block) and
+    everything in dead code of a nested function (not seen by the outer liveness pass)."""
     wit = {p["id"]: set() for p in progs}
+    req = {p["id"]: set() for p in progs}
     stats = {"facts": 0, "reads": 0, "witness_reads": 0}
     for c0 in range(0, len(progs), CHUNK):
         chunk = progs[c0:c0 + CHUNK]
@@ -53,13 +59,18 @@ def spec_witnesses(ctx, progs):
         missing = [p["id"] for p in chunk if p["id"] not in done]
         if missing:
             raise lib.Machinery(f"Scoping: {len(missing)} programs have no terminating path, e.g. id {missing[0]}")
-        sts = {}
+        sts, dd = {}, {}
         for f in r.printed:
             if "st" in f:
                 sts.setdefault((f["id"], f["v"], f["l"]), set()).add(f["st"])
+                dd.setdefault((f["id"], f["v"], f["l"]), set()).add(f["d"])
                 stats["facts"] += 1
+        mixed = [k for k, v in dd.items() if len(v) > 1]
+        if mixed:
+            raise lib.Machinery(f"Scoping: read {mixed[0]} is reached both live and dead: {dd[mixed[0]]}")
         stats["reads"] += len(sts)
-        facts = [{"id": i, "v": v, "l": l, "sts": sorted(s)} for (i, v, l), s in sorted(sts.items())]
+        stats["dead_reads"] = stats.get("dead_reads", 0) + sum(1 for v in dd.values() if v != {"live"})
+        facts = [{"id": i, "v": v, "l": l, "d": min(dd[(i, v, l)]), "sts": sorted(s)} for (i, v, l), s in sorted(sts.items())]
         if not facts:
             continue
         pf = os.path.join(ctx.workdir, f"scoping_facts_{c0}.json")
@@ -75,9 +86,11 @@ def spec_witnesses(ctx, progs):
                 stats["witness_reads"] += 1
                 for k in w["kinds"]:
                     wit[w["id"]].add((k, w["v"], w["l"]))
+                    if w["d"] == "live" or (w["d"] == "dead" and k in ("never", "maybe")):
+                        req[w["id"]].add((k, w["v"], w["l"]))
         os.remove(pin)
         os.remove(pf)
-    return wit, stats
+    return wit, req, stats
 
 
 # ---------------------------------------------------------------------------------------
@@ -89,9 +102,11 @@ OURS = set(R.KIND_OF_DIAG)
 SCOPING = OURS | {"IllegalAssignError"}
 
 
-def judge(wit: set, res: dict):
+def judge(wit: set, res: dict, req: set | None = None):
     """None if the code's outcome is allowed by the spec's witnesses, else (class, text).
+    `req` = the witnesses that oblige the code to reject (default: all of them).
     Raises Machinery for outcomes that are neither (generator outside the fragment)."""
+    req = wit if req is None else req
     st = res["status"]
     if st == "crash":
         return ("crash", f"check() raised {res['error']['class']}: {res['error']['msg']}")
@@ -106,7 +121,9 @@ def judge(wit: set, res: dict):
                             f"generator left the fragment: id {res['id']}")
     kinds = sorted({k for k, _, _ in wit})
     if st == "ok":
-        return (f"missed:{'+'.join(kinds)}", f"spec witnesses {sorted(wit)} but check() accepts")
+        if not req:
+            return None  # only optional witnesses (dead code the checker does not visit)
+        return (f"missed:{'+'.join(sorted({k for k, _, _ in req}))}", f"spec witnesses {sorted(req)} but check() accepts")
     d = res["diag"]
     if d in OURS and (R.KIND_OF_DIAG[d], res["var"], res["line"]) in wit:
         return None
@@ -149,7 +166,8 @@ def build_programs(ctx):
     progs += layer3
     n_ex = len(progs)
     seen = {G.key(p) for p in progs}
-    for p in G.jump_family():  # joins of >= 3 edges at loop heads / tails
+    # joins of >= 3 edges at loop heads / tails; code after return/break/continue behind a block boundary
+    for p in G.jump_family() + G.dead_family():
         if G.key(p) not in seen:
             seen.add(G.key(p))
             progs.append(p)
@@ -194,7 +212,7 @@ def run(ctx):
     ctx.level = "model_checking"
     progs, n_ex = build_programs(ctx)
     ctx.log(f"{len(progs)} programs ({n_ex} from the enumeration of <= 3 statements)")
-    wit, stats = spec_witnesses(ctx, [{"id": p["id"], "body": p["body"]} for p in progs])
+    wit, req, stats = spec_witnesses(ctx, [{"id": p["id"], "body": p["body"]} for p in progs])
     ctx.log(f"spec done: {stats}")
     # vacuity guard (extra TLC run with -coverage): thorough tier and selftest only
     cov = None if ctx.quick else action_coverage(ctx, progs[::max(1, len(progs) // 1200)])
@@ -204,8 +222,8 @@ def run(ctx):
     tally = {}
     for p, res in zip(progs, results):
         assert p["id"] == res["id"]
-        v = judge(wit[p["id"]], res)
-        cls = "agree:" + ("accept" if not wit[p["id"]] else res.get("diag", "?"))
+        v = judge(wit[p["id"]], res, req[p["id"]])
+        cls = "agree:" + ("accept" if res["status"] == "ok" else res.get("diag", "?"))
         tally[cls] = tally.get(cls, 0) + 1
         if v:
             groups.setdefault(v[0], []).append((G.size(p["body"]), p, res, v[1]))
@@ -213,6 +231,11 @@ def run(ctx):
         cases.sort(key=lambda c: (c[0], c[1]["src"]))
         _, p, res, text = cases[0]
         key = f"{cls}|{'+'.join(sorted(kinds_of(p['body'])))}"
+        if cls.split(":")[0] in ("false-reject", "wrong-diag", "wrong-subkind") and all(
+                c[2].get("line") in G.inner_dead_lines(c[1]["body"]) for c in cases):
+            # the reported read sits in dead code of a nested function (bb.py computes the captured variables
+            # of a nested function without following never-taken edges, cfg_checker checks it with them)
+            key = f"{cls.split(':')[0]}|read-in-dead-code-of-nested-function"
         ctx.violation(key, f"{len(cases)} programs; smallest:\n{p['src']}{text}",
                       {"cases": [{"src": c[1]["src"], "body": c[1]["body"], "exp": c[1]["exp"], "code": c[2],
                                   "witnesses": sorted(wit[c[1]["id"]])} for c in cases[:10]]})
@@ -232,9 +255,14 @@ def run(ctx):
         "rule": "distinct programs (canonical JSON, up to va<->vb renaming in the exhaustive part); non-trivial = has a "
                 "branch/loop/nested function or a spec witness",
         "exhaustive": False,
-        "exhaustive_part": (f"{n_ex} programs: all with <= 2 statements and " + ("a seeded sample of 4000 of the 12 706" if ctx.quick else "all 12 706")
+        "exhaustive_part": (f"{n_ex} programs: all with <= 2 statements and " + ("a seeded sample of 4000 of the 13 506" if ctx.quick else "all 13 506")
                             + " with 3 statements (modulo va<->vb)"),
         "loop_jump_family": "648 systematic loop programs with break/continue (joins of >= 3 edges)",
+        "dead_code_family": "1146 systematic programs with statements after return/break/continue",
+        "programs_with_dead_code": sum(1 for p in progs if G.has_dead(p["body"])),
+        "dead_code_programs_accepted": sum(1 for p, r in zip(progs, results) if r["status"] == "ok" and G.has_dead(p["body"])),
+        "programs_with_only_optional_witnesses": sum(1 for p in progs if wit[p["id"]] and not req[p["id"]]),
+        "reads_in_dead_code": stats.get("dead_reads", 0),
         "programs_with_witness": with_w,
         "programs_accepted_by_spec": len(progs) - with_w,
         "programs_by_witness_kind": kinds,
@@ -244,8 +272,9 @@ def run(ctx):
         "reads_classified": stats["reads"],
         "reads_with_witness": stats["witness_reads"],
         "samples": [{"src": p["src"], "witnesses": sorted(wit[p["id"]])} for p in sample],
-        "not_covered": "dead code after a jump, literal True/False conditions, `while True` (excluded by the reading of "
-                       "'path'); nested functions only one level deep and without parameters",
+        "not_covered": "literal True/False conditions, `while True`; nested functions only one level deep and without "
+                       "parameters; type joins / unbound locals inside dead code and everything in dead code of nested "
+                       "functions are optional witnesses (the checker does not visit those blocks)",
     })
     ctx.assumptions += ["TLC", "renderer scope_gen.render (JSON AST -> source text, line numbers)",
                         "union of per-path facts per read is formed in Python (set union only)"]
@@ -254,13 +283,14 @@ def run(ctx):
 def replay(ctx, data):
     for c in data["replay"]["cases"]:
         body = c["body"]
-        wit, _ = spec_witnesses(ctx, [{"id": 0, "body": body}])
+        wit, req, _ = spec_witnesses(ctx, [{"id": 0, "body": body}])
         res = R.check_job({"id": 0, "src": c["src"], "experimental": c["exp"]})
         print(c["src"])
         print("spec witnesses:", sorted(wit[0]))
         print("code:", {k: v for k, v in res.items() if k != "id"})
         try:
-            print("judgement:", judge(wit[0], res))
+            print("required:", sorted(req[0]))
+            print("judgement:", judge(wit[0], res, req[0]))
         except lib.Machinery as e:
             print("judgement: machinery:", e)
 
@@ -272,9 +302,9 @@ def selftest(ctx):
     for i, p in enumerate(bodies):
         src, body = G.render(p, rng)
         progs.append({"id": i, "body": body, "src": src, "exp": G.has_def(p)})
-    wit, _ = spec_witnesses(ctx, [{"id": p["id"], "body": p["body"]} for p in progs])
+    wit, req, _ = spec_witnesses(ctx, [{"id": p["id"], "body": p["body"]} for p in progs])
     results = replay_programs(progs)
-    base = [judge(wit[p["id"]], r) for p, r in zip(progs, results)]
+    base = [judge(wit[p["id"]], r, req[p["id"]]) for p, r in zip(progs, results)]
     if any(base):
         ctx.log(f"selftest: {sum(1 for b in base if b)} baseline disagreements (reported by the run, ignored here)")
     flagged = {"flip-accept": 0, "flip-reject": 0, "wrong-var": 0, "wrong-line": 0, "subkind": 0}
@@ -304,11 +334,11 @@ def selftest(ctx):
     if min(flagged.values()) == 0:
         raise lib.Machinery(f"selftest: some corruption class was never flagged: {flagged}")
     action_coverage(ctx, [{"id": p["id"], "body": p["body"]} for p in progs] +
-                    [{"id": 10_000 + i, "body": G.render(q)[1]} for i, q in enumerate(G.jump_family()[::9])])
+                    [{"id": 10_000 + i, "body": G.render(q)[1]} for i, q in enumerate(G.jump_family()[::9] + G.dead_family()[::20])])
     # corrupt the spec input: remove the assignment that makes a program fine -> witnesses must appear
     ok_prog = next(p for p in progs if not wit[p["id"]] and any(s["k"] == "use" for s in p["body"]))
     mutated = [s for s in ok_prog["body"] if s["k"] not in ("asg", "cpy", "for")]
-    w2, _ = spec_witnesses(ctx, [{"id": 0, "body": mutated}])
+    w2, _, _ = spec_witnesses(ctx, [{"id": 0, "body": mutated}])
     if not w2[0]:
         raise lib.Machinery("selftest: spec found no witness after deleting all assignments")
     ctx.log(f"selftest corruptions flagged: {flagged}")
